@@ -95,14 +95,21 @@ def gen_instance(rng, big: bool = False, terminals: bool = False) -> dict:
         if (bi, bj) in blocks:
             continue
         blocks.add((bi, bj))
-        if terminals and rng.random() < 0.3:
-            mods.append({"name": f"P{i}", "kind": "fterminal", "center": [rng.choice([0.0, W]), rng.uniform(0, H)]})
-            continue
         w, h = rng.choice([1.0, 2.0, 0.5]), rng.choice([1.0, 2.0, 0.5])
         rects = [[2 * bi + w / 2, 2 * bj + h / 2, w, h]]
         if w == 2.0 and h <= 1.0 and rng.random() < 0.5:
             rects.append([2 * bi + 0.5, 2 * bj + h + 0.5, 1.0, 1.0])
         mods.append({"name": f"F{i}", "kind": "fixed", "rects": rects})
+    # fixed terminals (I/O pins with a given centre): several, on and off the border; they are fixed nodes of the graph
+    for i in range(rng.choice([0, 1, 2, 2, 3, 4])):
+        if rng.random() < 0.6:
+            x, y = rng.uniform(0, W), rng.uniform(0, H)
+            x, y = [(0.0, y), (W, y), (x, 0.0), (x, H), (0.0, 0.0), (W, H)][rng.randrange(6)]
+        else:
+            x, y = rng.uniform(0, W), rng.uniform(0, H)
+        if rng.random() < 0.3:
+            x, y = round(x, 1), round(y, 1)
+        mods.append({"name": f"P{i}", "kind": "fterminal", "center": [x, y]})
     rng.shuffle(mods)
     names = [m["name"] for m in mods]
     n = len(names)
@@ -427,6 +434,12 @@ def check_sld(ctx: Ctx, inp: dict) -> None:
         if rep[0] != impl:
             ctx.disagree("sld", inp, impl or "returned", rep[0][:200], size=n)
         return
+    for i in range(len(fixed)):
+        if fixed[i]:
+            for d, sz in ((0, W), (1, H)):
+                back = coord[d][i] + sz / 2
+                if ulps(back, init[d][i], sz / 2) > 4:
+                    ctx.spec_fail("die:fixed-unmoved", inp, {"node": i, "dim": d, "initial": init[d][i], "returned+size/2": back}, size=n)
     parts = rep[0].split(" | ")
     mx, my = [hex2f(t) for t in parts[0].split()], [hex2f(t) for t in parts[1].split()]
     mwl, mit = hex2f(parts[2]), [int(t) for t in parts[3].split()]
@@ -613,7 +626,7 @@ def run(ctx: Ctx) -> None:
     import time
     rng = ctx.rng
     ctx.rule = ("instances: die 5..25 (integer and decimal sizes), 4..7 (thorough 9) movable modules (soft with/without centre, area as a number or split over region types incl. nothing in `_`; hard with 1-3 "
-                "rectangles) + 0..3 fixed modules (rectangles), connected net list (random spanning tree, chain or star + extra nets of arity "
+                "rectangles) + 0..3 fixed modules (rectangles) + 0..4 fixed terminals with a centre (on the border, in corners, inside), connected net list (random spanning tree, chain or star + extra nets of arity "
                 "2..5, default and explicit weights), every disc fits; runs: Python `random` seeded per run, nfloorplans 0..3 (0 = use the "
                 "given centres), draws captured. Streams: unit ops (normalize F/Q, ortho, andp, nsum, centroids, swl, recenter F/Q), `sld` = "
                 "whole spectral_layout_die runs, `slayout` = whole spectral_layout runs (+ a few with movable terminals, correspondence "
@@ -632,7 +645,7 @@ def run(ctx: Ctx) -> None:
     t0 = time.time()
     budget = 9 if ctx.tier == "quick" else 150
     for i in range(ctx.n(40, 600)):
-        if time.time() - t0 > budget * ctx.budget:
+        if time.time() - t0 > min(budget * ctx.budget, max(budget, 60)):
             ctx.notes.append(f"sld stream stopped by its time budget after {i} runs")
             break
         inp = gen_instance(rng, big=ctx.tier != "quick")
@@ -644,7 +657,7 @@ def run(ctx: Ctx) -> None:
     t0 = time.time()
     budget = 30 if ctx.tier == "quick" else 500
     for i in range(ctx.n(70, 2000)):
-        if time.time() - t0 > budget * ctx.budget:
+        if time.time() - t0 > min(budget * ctx.budget, max(budget, 150)):
             ctx.notes.append(f"slayout stream stopped by its time budget after {i} runs")
             break
         terminals = rng.random() < 0.1
@@ -660,6 +673,7 @@ def run(ctx: Ctx) -> None:
         inp["judge"] = not any(m["kind"] == "terminal" for m in inp["mods"])
         ctx.count(f"nfloorplans-{inp['nfl']}")
         ctx.count("mix:" + "".join(sorted({m["kind"][0] for m in inp["mods"]})))
+        ctx.count(f"fixed-terminals-{min(3, sum(m['kind'] == 'fterminal' for m in inp['mods']))}{'+' if sum(m['kind'] == 'fterminal' for m in inp['mods']) >= 3 else ''}")
         if any(isinstance(m.get("area"), dict) for m in inp["mods"]):
             ctx.count("has-multi-region-soft-module")
         check_layout_run(ctx, inp, judge=inp["judge"])
